@@ -114,7 +114,7 @@ func (ff *FuncFacts) AtRefined(b *ssa.BasicBlock) FactSet {
 				ef := ff.edgeFactsIntoMerge(pred, ph.Block())
 				vt := ff.T.Of(e)
 				if f.Pos { // phi == nil: drop edges whose value is certainly non-nil
-					if neverNil(e) || ef.Has(NE(vt, "nil")) {
+					if neverNil(e) || ef.Has(NE(vt, "nil")) || ff.derefdBefore(e, pred) {
 						continue
 					}
 					ef = append(ef, EQ(vt, "nil"))
